@@ -1054,6 +1054,15 @@ func runC04(c *core.Ctx) {
 					dels = append(dels, delivery{name: "default-declared+literal-null", query: fmt.Sprintf("{ %s(x: null) }", dfield), ok: true})
 				}
 				dels = append(dels, delivery{name: "warm-root+literal", query: fmt.Sprintf("{ %s(x: %s) }", field, lit), ok: true})
+				// ggql.Relaxed = true (the package switch that lets JSON strings stand for enum values - what a JSON client has to
+				// send): the same demands, a member is still a declared member
+				if base == "E" || base == "I" {
+					dels = append(dels, delivery{name: "relaxed+literal", query: fmt.Sprintf("{ %s(x: %s) }", field, lit), ok: true})
+					dels = append(dels, delivery{"relaxed+variable-json", fmt.Sprintf("query Q($v: %s) { %s(x: $v) }", t, field), map[string]interface{}{"v": v.JSON()}, v.K != cvNull, t, false})
+					if v.K != cvNull {
+						dels = append(dels, delivery{"relaxed+variable-over-default", fmt.Sprintf("query Q($v: %s = %s) { %s(x: $v) }", t, validLit(t), field), map[string]interface{}{"v": v.JSON()}, true, t, false})
+					}
+				}
 				// prepared twins: the same request as a parsed executable that was already resolved once with a valid value
 				for _, dl := range append([]delivery{}, dels...) {
 					if dl.vt != nil && dl.ok {
@@ -1092,6 +1101,10 @@ func runC04(c *core.Ctx) {
 						varsCopy := deepCopy(dl.vars)
 						vm, _ := varsCopy.(map[string]interface{})
 						pi := core.Safe(func() {
+							if strings.Contains(dl.name, "relaxed+") {
+								ggql.Relaxed = true
+								defer func() { ggql.Relaxed = false }()
+							}
 							if isWarm(dl) {
 								_ = root.ResolveString(fmt.Sprintf("{ %s(x: %s) }", field, validLit(t)), "", nil)
 								rec.invoked, rec.args = 0, nil
@@ -1129,6 +1142,10 @@ func runC04(c *core.Ctx) {
 						_ = hasX
 						cs.Got = fmt.Sprintf("%#v", got)
 						_, hasErr := res["errors"]
+						if strings.HasPrefix(dl.name, "relaxed+literal") && mf && !mustFail(t, c04MembersForStrings(v, base == "E")) {
+							// the only thing wrong with the value is a string that is no member of the enum (finding C04-F1)
+							attrs["what"] = "relaxed-string-non-member"
+						}
 						switch {
 						case mf && rec.invoked > 0:
 							cs.Diff = "uncoercible value, but the resolver was invoked"
@@ -1440,4 +1457,28 @@ func c04RefusedGrowth(c *core.Ctx, sdl string, strats []world.Strategy) {
 			}
 		}
 	}
+}
+
+// c04MembersForStrings is v with every string that stands where an enum value belongs (everywhere for the base E; under the key
+// "en" for the base I) replaced by a member of the enum.
+func c04MembersForStrings(v CV, enumPos bool) CV {
+	switch v.K {
+	case cvStr:
+		if enumPos {
+			return cvE("RED")
+		}
+	case cvList:
+		out := CV{K: cvList}
+		for _, e := range v.L {
+			out.L = append(out.L, c04MembersForStrings(e, enumPos))
+		}
+		return out
+	case cvObj:
+		out := CV{K: cvObj, O: map[string]CV{}}
+		for k, e := range v.O {
+			out.O[k] = c04MembersForStrings(e, k == "en")
+		}
+		return out
+	}
+	return v
 }
